@@ -352,7 +352,8 @@ def op_batch_features(job):
     CR.mixed_rank_graph = capture
     try:
         for item in job['items']:
-            L.reset_globals()
+            if not item.get('keep_state'):
+                L.reset_globals()          # keep_state: the next mini-batch of the same run, in the same process
             args = L.make_args(**item['args'])
             captured.clear()
             rows = [list(r) for r in item['rows']]
